@@ -190,7 +190,8 @@ def compare_entities(ex: Exec, sim, it: lang.Interp):
             cond = sim.ents[n].get("control_behavior", {}).get("circuit_condition") or {}
             fs = (cond.get("first_signal") or {}).get("name")
             if (fs and fs not in fsim.WILD and cond.get("comparator") == ">" and cond.get("constant", 0) == 0
-                    and cond.get("second_signal") is None and val.type is not None and fs == val.type):
+                    and cond.get("second_signal") is None and val.type is not None and fs == val.type
+                    and not val.cmp and raw[0] not in ("c", "any", "all")):
                 got = sim.signals_at(n).get(fs, 0)
                 if got != val.value:
                     mm.append({"name": ent["name"], "what": "enable signal value", "signal": fs,
@@ -330,4 +331,171 @@ def run_stateless_case(case, attribute=None, chests_fn=None, files=None):
             fid = attribute(prog, case, vals, res, ex, replay)
             if fid:
                 res["finding"] = fid
+    return res
+
+
+# ------------------------------------------------------------------ twin comparison
+
+def observe_all(ex: Exec, sim, values, chest=None, it=None):
+    """Observation record used by twin oracles: anchors, named constants, entity conditions."""
+    for n_ in sim._comb:
+        sim.out[n_] = {}
+    obs = ex.observe(sim, values, chest=chest)
+    ents = {}
+    for e in ex.view.user:
+        cb = e.get("control_behavior") or {}
+        if "circuit_condition" in cb or cb.get("circuit_enabled"):
+            w, h = protos.tile_size(e["name"])
+            key = "%s@%s,%s" % (e["name"], e["position"]["x"] - w / 2.0, e["position"]["y"] - h / 2.0)
+            ents[key] = list(sim.circuit_condition(e["entity_number"]))
+    obs["ent"] = ents
+    return obs
+
+
+def diff_observations(a, b, names=None, rename=None):
+    """Differences between two observation records (twin oracle).
+
+    Anchors/constants are compared by name; maps must be equal, except that two
+    single-signal maps with equal values are accepted (compiler-chosen names may differ).
+    rename: optional dict mapping names of `a` to names of `b`."""
+    out = []
+    if (a.get("settled") is None) != (b.get("settled") is None):
+        out.append({"what": "one build settles, the other does not", "a": a.get("settled"), "b": b.get("settled")})
+    for kind in ("out", "const"):
+        for name, ea in a[kind].items():
+            nb = (rename or {}).get(name, name)
+            if names is not None and name not in names:
+                continue
+            eb = b[kind].get(nb)
+            if eb is None:
+                # a name may be an anchor in one build and a named constant in the other
+                eb = b["const" if kind == "out" else "out"].get(nb)
+            if eb is None:
+                continue
+            sa, sb = ea.get("signals"), eb.get("signals")
+            if sa is None or sb is None:
+                if ea != eb:
+                    out.append({"name": name, "what": "anchor multiplicity", "a": ea, "b": eb})
+                continue
+            if sa == sb:
+                continue
+            if len(sa) <= 1 and len(sb) <= 1 and list(sa.values()) == list(sb.values()):
+                continue
+            out.append({"name": name, "what": "signals differ", "a": sa, "b": sb})
+    for key, ta in a.get("ent", {}).items():
+        tb = b.get("ent", {}).get(key)
+        if tb is None:
+            out.append({"entity": key, "what": "entity missing in second build"})
+        elif ta != tb:
+            out.append({"entity": key, "what": "entity condition differs", "a": ta, "b": tb})
+    for key in b.get("ent", {}):
+        if key not in a.get("ent", {}):
+            out.append({"entity": key, "what": "entity missing in first build"})
+    return out
+
+
+def common_observed(a, b):
+    n = 0
+    for kind in ("out", "const"):
+        n += len(set(a[kind]) & (set(b["out"]) | set(b["const"])))
+    n += len(set(a.get("ent", {})) & set(b.get("ent", {})))
+    return n
+
+
+def run_twin_case(case, prog_a, opts_a, prog_b, opts_b, vals=None, chests=None, rename=None,
+                  label_a="A", label_b="B", reference=True, files=None, vals_b=None):
+    """Differential oracle: two builds must be observationally equal for every valuation;
+    build A is additionally compared with the reference semantics (a common error is not missed)."""
+    import random as _r
+
+    from . import gen
+
+    rng = _r.Random(case["vseed"])
+    if vals is None:
+        vals = gen.valuations(prog_a, case["nval"], rng, small=case.get("small", False), edges=case.get("edges"))
+    if vals_b is None:
+        vals_b = vals
+    ca = dict(case, **opts_a)
+    cb = dict(case, **opts_b)
+    src_a, _la, ba = compile_prog(prog_a, ca)
+    src_b, _lb, bb = compile_prog(prog_b, cb)
+    shape = lang.shape_of(prog_a)
+    base = {"shape": shape, "stratum": case["stratum"], "evaluations": 2 * len(vals)}
+    if not ba.ok or not bb.ok:
+        if ba.ok != bb.ok:
+            return dict(base, verdict="violated", nontrivial=True,
+                        why="only one of the two builds is accepted: %s=%s %s=%s" % (
+                            label_a, ba.error or "ok", label_b, bb.error or "ok"),
+                        witness={"source_a": src_a, "source_b": src_b, "error_a": ba.error, "error_b": bb.error})
+        return dict(base, verdict="vacuous", why="both rejected: " + str(ba.error)[:200], src=src_a)
+    exa, exb = Exec(ba, prog_a), Exec(bb, prog_b)
+    sa, sb = exa.sim("phys"), exb.sim("phys")
+    compared = 0
+    nonzero = 0
+    sample = None
+    fail = None
+    for idx, (va, vb) in enumerate(zip(vals, vals_b)):
+        chest = chests[idx] if chests else None
+        oa = observe_all(exa, sa, va, chest)
+        ob = observe_all(exb, sb, vb, chest)
+        if oa["missing_inputs"] or ob["missing_inputs"]:
+            return dict(base, verdict="inconclusive", src=src_a,
+                        why="declared input(s) not found by their label: %s %s" % (oa["missing_inputs"], ob["missing_inputs"]))
+        d = diff_observations(oa, ob, rename=rename)
+        compared += common_observed(oa, ob)
+        if any(v.get("signals") for v in oa["out"].values()):
+            nonzero += 1
+        if d:
+            fail = (idx, va, vb, chest, d, "twin")
+            break
+        if reference:
+            try:
+                it = lang.Interp(prog_a, va, chest=chest, files=files).run()
+            except lang.Unspec:
+                continue
+            exp = expected_of(it)
+            mm, c, nz = compare_outputs(exp, oa, skip=set(va))
+            if it.enables:
+                mm2, c2 = compare_entities(exa, sa, it)
+                mm += mm2
+            if mm:
+                fail = (idx, va, vb, chest, mm, "reference")
+                break
+        if sample is None and nonzero:
+            sample = {"source_a": src_a, "source_b": src_b if src_b != src_a else "(same source)",
+                      "inputs": va, "observed_a": {k: v.get("signals") for k, v in oa["out"].items()}}
+    if fail is None:
+        if compared == 0:
+            return dict(base, verdict="inconclusive", why="nothing observable in common", src=src_a)
+        return dict(base, verdict="held", nontrivial=nonzero > 0, sample=sample or {"source_a": src_a},
+                    monitors={"plan": 2, "solver": len(ba.solves) + len(bb.solves)})
+    idx, va, vb, chest, d, kind = fail
+    # stage: replay on the logical executions
+    try:
+        la, lb = exa.sim("log"), exb.sim("log")
+        loa = observe_all(exa, la, va, chest)
+        lob = observe_all(exb, lb, vb, chest)
+        if kind == "twin":
+            ld = diff_observations(loa, lob, rename=rename)
+        else:
+            it = lang.Interp(prog_a, va, chest=chest, files=files).run()
+            ld = compare_outputs(expected_of(it), loa, skip=set(va))[0]
+            if it.enables:
+                ld += compare_entities(exa, la, it)[0]
+    except Exception as exn:  # noqa: BLE001
+        ld = [{"logical_error": repr(exn)}]
+    if ld:
+        stage = "upstream"
+    else:
+        faithful = all(wiring.physical_partition(b.bp) == wiring.planned_partition(b.bp, b.cap) for b in (ba, bb))
+        stage = K1 if faithful else "wiring"
+    witness = {"source_a": src_a, "source_b": src_b, "label_a": label_a, "label_b": label_b, "inputs": va,
+               "inputs_b": vb if vb != va else None, "oracle": kind, "differences": d[:4], "stage": stage}
+    if chest:
+        witness["chests"] = {str(k): v for k, v in chest.items()}
+    res = dict(base, verdict="violated", nontrivial=True, witness=witness,
+               why="%s/%s: %s" % (kind, stage, str(d[0])[:300]))
+    if stage == K1:
+        res["finding"] = K1
+    res["_ctx"] = None
     return res
